@@ -12,7 +12,7 @@ import numpy as np
 from ..catalogue import FAM, Builder, leaf_names, show
 from ..common import S, default_dtype, describe_struct, f32, f64, structs_equal
 from ..harness import inconclusive, ok, skipped, violation
-from ..programs import build_concrete
+from ..programs import build_concrete, concrete_params
 from .c01 import _tuplify
 
 ID = 'C05'
@@ -22,7 +22,7 @@ EXPLANATION = ('(a) Operators are constructed with jax.export symbolic dimension
                'back as dimension polynomials and z3 decides, for ALL a, b >= 1, whether any declared axis length or size can differ from the '
                'traced one (unsat = honest for every size). (b) For every catalogue operator, its transpose, closed-form inverse, reduce() and '
                'seeded composites, the declared pytree/shapes/dtypes/sizes/promoted dtypes are compared with the abstract evaluation of mv in the '
-               'configurations {float32, float64} x {x64 on, off}, plus float16, bfloat16 and complex64 data for the leaf-level programs; (b) is a finite enumeration on the IR and involves no solver.')
+               'configurations {float32, float64} x {x64 on, off}, plus float16, bfloat16 and complex64 data and float64 parameters on float32 structures for the leaf-level programs; (b) is a finite enumeration on the IR and involves no solver.')
 FUNCTIONS = ['AbstractLinearOperator.out_structure/in_size/out_size/in_promoted_dtype/out_promoted_dtype', 'square()', 'AdditionOperator/CompositionOperator/_AbstractLazyDualOperator structures',
              'AbstractBlockOperator/BlockRowOperator/BlockColumnOperator structures', 'IndexOperator._out_structure', 'every constructor that accepts symbolic dimensions']
 BOUNDS = {'quick': '(a) 27 operator constructions with symbolic dimensions (all sizes >= 1); (b) catalogue leaves, .T, closed-form .I, reduce(), 40 composites per family x 3 dtype/x64 configurations; leaf-level programs + 15 composites also in float16 / bfloat16 / complex64; every diagonal / axis specification of the C11 and C13 families that the constructors accept',
@@ -102,6 +102,9 @@ def cases(tier, seed):
                 out.append(('struct', fam, e, cfg))
         # half precision (every operator) and complex data (every operator documented for it: the Toeplitz operator is typed Float)
         small = list(base) + [('T', b) for b in base] + [('I', ('leaf', n, 0)) for n in c04.CLOSED_INV[fam]] + [('red', b) for b in base] + comp[:15]
+        # parameter arrays WIDER than the declared structure (float64 values on a float32 structure, x64 on)
+        for e in list(base) + [('T', b) for b in base] + [('I', ('leaf', n, 0)) for n in c04.CLOSED_INV[fam]] + [('red', b) for b in base]:
+            out.append(('struct', fam, e, ('wide', True)))
         for e in small:
             out.append(('struct', fam, e, ('f16', True)))
             out.append(('struct', fam, e, ('bf16', False)))
@@ -182,12 +185,18 @@ def _symdim(name, twin):
 
 def _struct(fam, e, cfg, twin=False):
     dt, x64 = cfg
-    dtype = {'f32': f32, 'f64': f64, 'f16': jnp.float16, 'bf16': jnp.bfloat16, 'c64': jnp.complex64}[dt]
+    dtype = {'f32': f32, 'f64': f64, 'f16': jnp.float16, 'bf16': jnp.bfloat16, 'c64': jnp.complex64, 'wide': f32}[dt]
 
     def go():
         with default_dtype(dtype):
             try:
-                op = build_concrete(fam, e)
+                if dt == 'wide':
+                    bld_ = Builder(fam)
+                    op = bld_.build(e, [jnp.asarray(p_, jnp.float64) for p_ in concrete_params(bld_, e)])
+                    if not any(np.dtype(getattr(l, 'dtype', f32)) == np.dtype(jnp.float64) for l in jax.tree.leaves(op)):
+                        return skipped('no parameter array: nothing is wider than the structure')
+                else:
+                    op = build_concrete(fam, e)
                 xin = op.in_structure()
             except ValueError as ex:
                 return skipped(f'ill-typed: {str(ex)[:50]}')
@@ -201,8 +210,9 @@ def _struct(fam, e, cfg, twin=False):
             if twin:
                 traced = jax.tree.map(lambda l: jax.ShapeDtypeStruct(l.shape + (1,), l.dtype), traced)
             if not structs_equal(decl, traced):
+                sig = f'c05-wide-param-dtype:{type(op).__name__}' if dt == 'wide' else f'c05-out:{fam}:{show(e)}:{cfg}'
                 return violation(f'{show(e)} [{fam}, {cfg}]: out_structure() = {describe_struct(decl)} but mv returns {describe_struct(traced)}',
-                                 signature=f'c05-out:{fam}:{show(e)}:{cfg}', kind='struct')
+                                 signature=sig, kind='struct')
             ins, outs = jax.tree.leaves(xin), jax.tree.leaves(traced)
             problems = []
             if op.in_size() != sum(math.prod(l.shape) for l in ins):
@@ -213,7 +223,7 @@ def _struct(fam, e, cfg, twin=False):
                 problems.append(f'in_promoted_dtype={op.in_promoted_dtype}')
             if outs and np.dtype(op.out_promoted_dtype) != np.dtype(jnp.result_type(*outs)):
                 problems.append(f'out_promoted_dtype={op.out_promoted_dtype}')
-            if any(np.dtype(l.dtype) != np.dtype(dtype) for l in outs):
+            if dt != 'wide' and any(np.dtype(l.dtype) != np.dtype(dtype) for l in outs):
                 problems.append(f'output dtype {[str(l.dtype) for l in outs]} differs from the data dtype {dt}')
             if problems:
                 return violation(f'{show(e)} [{fam}, {cfg}]: ' + ', '.join(problems), signature=f'c05-size-dtype:{fam}:{show(e)}:{cfg}', kind='struct')
